@@ -328,6 +328,108 @@ static std::vector<Scenario> scenariosC03(bool thorough, const vp::Args& A) {
   return v;
 }
 
+
+// ---- C15 ----
+static std::vector<AnswerSpec> answerUniverse(uint8_t own) {
+  uint8_t os = (uint8_t)(own + 5);
+  return {
+    AnswerSpec{-1, os, 0x07, 0x04, Bytes{}, ref::unhex("0ab5454255010203040506")},        // ident, no id
+    AnswerSpec{-1, os, 0xb5, 0x09, Bytes{0x0d}, ref::unhex("02a9aa")},                     // id 1, answer needs escapes
+    AnswerSpec{0x10, os, 0xb5, 0x09, Bytes{0x0d, 0x01}, ref::unhex("0155")},              // id 2, source restricted
+    AnswerSpec{0x10, os, 0xb5, 0x09, Bytes{0x0d}, ref::unhex("0166")},                     // id 1, source restricted (same id as #1)
+    AnswerSpec{-1, own, 0xb5, 0x10, Bytes{0x01}, ref::unhex("0100")},                      // master destination, tail length 1
+    AnswerSpec{-1, 0x08, 0xb5, 0x04, Bytes{0x01, 0x02, 0x03, 0x04}, ref::unhex("00")},     // foreign address, id 4
+  };
+}
+// foreign master script talking to an address ebusd may answer: variant 0 plain, 1 bad CRC first then repeat,
+// 2 bad twice, 3 NAKs the response once, 4 NAKs it twice
+static Script askScript(const Bytes& master, int respSymbols, int variant) {
+  Script s;
+  bool slaveDst = !ref::isMaster(master[1]);
+  if (variant == 1 || variant == 2) {
+    s.push_back(send(ref::wirePart(master, 0x01)));
+    s.push_back(await(1));  // NAK by ebusd
+    s.push_back(send(ref::wirePart(master, variant == 2 ? 0x01 : 0)));
+  } else {
+    s.push_back(send(ref::wirePart(master)));
+  }
+  s.push_back(await(1));  // ACK by ebusd
+  if (!slaveDst) return s;
+  s.push_back(await(respSymbols));
+  if (variant == 3 || variant == 4) {
+    s.push_back(send(Bytes{ref::NAK}));
+    s.push_back(await(respSymbols));
+    s.push_back(send(Bytes{variant == 4 ? ref::NAK : ref::ACK}));
+  } else {
+    s.push_back(send(Bytes{ref::ACK}));
+  }
+  return s;
+}
+static std::vector<Scenario> scenariosC15(bool thorough, const vp::Args& A) {
+  std::vector<Scenario> v;
+  const uint8_t own = 0x31;
+  std::vector<AnswerSpec> U = answerUniverse(own);
+  // answer sets: all subsets of size <= 2 (thorough 3), empty set included
+  std::vector<std::vector<int>> sets;
+  int maxSize = thorough ? 3 : 2;
+  for (int mask = 0; mask < (1 << U.size()); mask++) {
+    if (__builtin_popcount(mask) > maxSize) continue;
+    std::vector<int> st;
+    for (size_t i = 0; i < U.size(); i++) if (mask & (1 << i)) st.push_back((int)i);
+    sets.push_back(st);
+  }
+  // telegrams derived from the universe: id kept / truncated / extended by 1,2,4 data bytes / one id byte mutated; sources 10 and 03
+  struct TG { Bytes m; int from; };
+  std::vector<TG> tels;
+  for (size_t ui = 0; ui < U.size(); ui++) {
+    const AnswerSpec& a = U[ui];
+    const uint8_t srcs[2] = {0x10, 0x03};
+    for (int si = 0; si < 2; si++) {
+      std::vector<Bytes> datas;
+      datas.push_back(a.id);
+      if (!a.id.empty()) { Bytes t = a.id; t.pop_back(); datas.push_back(t); Bytes mu = a.id; mu.back() ^= 0x80; datas.push_back(mu); }
+      for (int extra : {1, 2, 4, 6}) { Bytes e = a.id; for (int j = 0; j < extra; j++) e.push_back((uint8_t)(0x01 + j)); if (e.size() <= 16) datas.push_back(e); }
+      if (thorough) { Bytes e = a.id; while (e.size() < 16) e.push_back(0xa9); datas.push_back(e); }
+      for (auto& d : datas) {
+        Bytes m = {srcs[si], a.dst, a.pb, a.sb, (uint8_t)d.size()};
+        m.insert(m.end(), d.begin(), d.end());
+        bool dup = false;
+        for (auto& t : tels) if (t.m == m) dup = true;
+        if (!dup) tels.push_back(TG{m, (int)ui});
+      }
+    }
+  }
+  for (int enh = 0; enh < 2; enh++) {
+    for (size_t si = 0; si < sets.size(); si++) {
+      for (size_t ti = 0; ti < tels.size(); ti++) {
+        // only telegrams that are related to the set (address registered) or a few unrelated ones
+        bool related = false;
+        for (int ai : sets[si]) if (U[ai].dst == tels[ti].m[1]) related = true;
+        if (!related && (ti % 7) != 0) continue;
+        int nvar = related ? 5 : 1;
+        for (int var = 0; var < nvar; var++) {
+          if (enh && !thorough && (var == 2 || var == 4)) continue;
+          Scenario s;
+          s.enhanced = enh; s.own = own; s.answer = true;
+          for (int ai : sets[si]) s.answers.push_back(U[ai]);
+          // response symbols of the longest registered answer that could apply (world only needs a count to wait for)
+          AnswerMonitor probe(nullptr, s);
+          std::vector<int> c = probe.lookup(tels[ti].m);
+          int rs = c.empty() ? 1 : (int)ref::wirePart(s.answers[c[0]].answer).size();
+          s.foreign.push_back(askScript(tels[ti].m, rs, var));
+          s.tailSyns = 2;
+          s.k = (thorough && related && var == 0) ? 2 : 1;
+          s.c = thorough ? 1 : 0;
+          if (!thorough && related && var == 0 && sets[si].size() == 1) { s.k = (ti % 3) == 0 ? 2 : 1; s.c = 1; }
+          s.name = std::string(enh ? "enh" : "plain") + "/set" + std::to_string(si) + "/tel" + ref::hex(tels[ti].m) + "/var" + std::to_string(var) + "/k" + std::to_string(s.k);
+          v.push_back(s);
+        }
+      }
+    }
+  }
+  return v;
+}
+
 // ---- C01 ----
 static std::vector<Scenario> scenariosC01(bool thorough, const vp::Args& A) {
   std::vector<Scenario> v;
@@ -396,6 +498,9 @@ int main(int argc, char** argv) {
   } else if (prop == "C02") {
     scs = scenariosC02(th, A);
     mf = [](World& w, VSink* s) { return std::vector<Monitor*>{new ActiveMonitor(s, w.sc, true, false)}; };
+  } else if (prop == "C15") {
+    scs = scenariosC15(th, A);
+    mf = [](World& w, VSink* s) { return std::vector<Monitor*>{new AnswerMonitor(s, w.sc)}; };
   } else if (prop == "C03") {
     scs = scenariosC03(th, A);
     mf = [](World& w, VSink* s) { return std::vector<Monitor*>{new ActiveMonitor(s, w.sc, false, true)}; };
